@@ -1,12 +1,185 @@
-"""Environmental faults (placeholder)."""
-def run_with_fault(w, s, fn):
-    from dsim.standin.simfs import FS
-    from dsim.worlds.arrays import Skip
-    from dsim.worlds.file_ops import finalize_leaks
+"""Environmental faults of FileWorld: a storage error or a crash at the j-th storage call of a step.
+
+Count-then-inject: the step is dry-run on a snapshot of the simulated store to count its N storage
+calls, the snapshot is restored, and the step is re-run with the fault armed at call j in [1, N].
+Only the narrow oracle of DESIGN 3.4 applies to a faulted step:
+  fault_operand_changed  the in-memory operand of the step is unchanged;
+  fault_keeps            every variable that was on file (and synced) before the step, and that the
+                         step was not writing, still reads back equal to the model;
+  fault_recovery         once faults stop, a fresh write_nc(mode='w') + read_nc on the path succeeds.
+Whatever the faulted step was writing becomes 'unknown' in the model, whether or not it reported success.
+"""
+import copy as _copy
+
+from dsim.kernel import Violation
+from dsim import values as V
+from dsim.worlds.arrays import Skip
+from dsim.standin.simfs import FS, Crash
+from dsim.worlds import file_ops as F
+
+
+def _p(w):
+    return "C20" if "C20" in w.props else "C19"
+
+
+def _save(w):
+    return {"fs_files": _copy.deepcopy(FS.files), "fs_hist": _copy.deepcopy(FS.history), "fs_synced": _copy.deepcopy(FS.synced),
+            "fs_handles": list(FS.handles), "fs_total": FS.total_calls, "fs_fired": list(FS.fired),
+            "files": _copy.deepcopy(w.files), "counts": list(w.counts), "n": (w.n_writes, w.n_reads, w.n_disk),
+            "plan": list(w.plan), "counter": w.counter}
+
+
+def _restore(w, sv):
+    FS.files, FS.history, FS.synced = sv["fs_files"], sv["fs_hist"], sv["fs_synced"]
+    for h in FS.handles[len(sv["fs_handles"]):]:
+        h._closed = True
+    FS.handles = sv["fs_handles"]
+    FS.total_calls = sv["fs_total"]
+    FS.fired = sv["fs_fired"]
+    w.files = sv["files"]
+    w.counts = sv["counts"]
+    w.n_writes, w.n_reads, w.n_disk = sv["n"]
+    w.plan = sv["plan"]
+    w.counter = sv["counter"]
+
+
+def _plain(w, s, fn):
     FS.begin_step()
     try:
         return fn(w, s)
     except Skip:
         return "skipped"
     finally:
-        finalize_leaks(w)
+        F.finalize_leaks(w)
+
+
+def affected_paths(s):
+    if "paths" in s:
+        return list(s["paths"])
+    return [s["path"]] if "path" in s else []
+
+
+def mark_unknown(w, s):
+    """Everything the faulted step was writing is excluded from equality until rewritten."""
+    op = s["op"]
+    for path in affected_paths(s):
+        if not FS.exists(path):
+            w.files.pop(path, None)
+            continue
+        fm = w.files.get(path)
+        replace = (op == "ds_write" and s["mode"] == "w") or (op == "arr_write" and (s["mode"] in ("w", "w-") or fm is None)) \
+            or op in ("unlim_create", "multi_read")
+        if replace or fm is None:
+            w.files.pop(path, None)
+            F.absorb_unknown(w, path)
+            fm = w.files.get(path)
+            if fm is not None:
+                fm.attrs_unknown = True
+            continue
+        targets = []
+        if op == "ds_write":
+            targets = [vs["name"] for vs in s["spec"]["vars"]]
+            fm.attrs_unknown = True
+        elif op in ("arr_write", "h_set", "disk_assign", "unlim_extend"):
+            targets = [s["name"]]
+        if op == "unlim_extend":
+            d = s["dim"]
+            if d in fm.dims:
+                fm.dims[d]["unknown"] = True
+            targets = [k for k, v in fm.vars.items() if d in v["dims"]]
+        for k in targets:
+            if k in fm.vars:
+                fm.vars[k]["unknown"] = True
+        F.absorb_unknown(w, path)
+
+
+def verify_known(w, path, what):
+    fm = w.files.get(path)
+    if fm is None or not FS.exists(path):
+        return
+    prop = _p(w)
+    for name in F.known_vars(fm):
+        v = fm.vars[name]
+        if any(fm.dims[d]["unknown"] for d in v["dims"]):
+            continue
+        try:
+            got = w.da.read_nc(path, name)
+        except Exception as e:
+            raise Violation(prop, "fault_keeps", "%s: variable %r, on file before the faulted step, can no longer be read: %s: %s" % (
+                what, name, type(e).__name__, str(e)[:160]))
+        finally:
+            F.finalize_leaks(w)
+        if not isinstance(got, w.da.DimArray):
+            got = w.da.DimArray(got)
+        F.compare_array(w, got, fm, name, "fault_keeps", prop, what)
+        w.count("fault:kept_variable_verified")
+
+
+def run_with_fault(w, s, fn):
+    fault = s["fault"]
+    if w.handles:
+        return _plain(w, s, fn) + ":nofault"
+    props = w.props
+    # ---- dry run: count the storage calls of this step
+    sv = _save(w)
+    w.props = set()
+    FS.begin_step()
+    try:
+        fn(w, s)
+        n_calls = FS.ncalls
+        dry_ok = True
+    except Skip:
+        n_calls, dry_ok = 0, False
+    except Violation:
+        n_calls, dry_ok = 0, False
+    finally:
+        w.props = props
+        F.finalize_leaks(w)
+        _restore(w, sv)
+    if not dry_ok or n_calls == 0:
+        return _plain(w, s, fn) + ":nofault"
+    j = min(n_calls, 1 + int(fault["frac"] * n_calls))
+    kind = fault["kind"]
+    # ---- the faulted execution
+    w.props = set()
+    FS.begin_step(armed=(j, kind))
+    crashed, out = False, "?"
+    try:
+        out = fn(w, s)
+    except Skip:
+        out = "skipped"
+    except Crash:
+        crashed = True
+        out = "crashed"
+    except Violation as v:
+        w.props = props
+        raise Violation(_p(w), "fault_operand_changed", "under an injected %s at storage call %d/%d: %s" % (kind, j, n_calls, v.detail))
+    finally:
+        w.props = props
+    fired = FS.armed is None
+    FS.armed = None
+    site = FS.fired[-1][0].split(":")[0] if fired and FS.fired else "none"
+    if crashed:
+        pick = fault["survive"]
+        FS.crash(lambda n: min(n - 1, int(pick * n)))
+        w.handles.clear()
+        w.count("fault:crash@" + site)
+    else:
+        F.finalize_leaks(w)
+        w.count(("fault:storage_error@" + site) if fired else "fault:armed_but_not_reached")
+    if fired:
+        w.count("fault:outcome_" + ("reported_success" if out.startswith("ok") else "reported_failure" if not crashed else "crash"))
+    mark_unknown(w, s)
+    for path in list(w.files):
+        if not FS.exists(path):
+            del w.files[path]
+    # ---- narrow oracle
+    for path in affected_paths(s):
+        verify_known(w, path, "after an injected %s at storage call %d/%d (%s) of %s" % (kind, j, n_calls, site, s["op"]))
+    # ---- bounded recovery, once the last fault has been injected
+    if w.faults_left == 0 and affected_paths(s):
+        path = affected_paths(s)[0]
+        from dsim.worlds.files import gen_dataset_spec
+        w.plan = [lambda w_, r_, p=path: {"op": "ds_write", "path": p, "mode": "w", "spec": gen_dataset_spec(r_, w_.cfg), "recovery": True},
+                  lambda w_, r_, p=path: {"op": "read", "path": p, "how": "read_nc", "recovery": True}] + w.plan
+    return "faulted:%s:%s" % (kind if fired else "notreached", out.split(":")[0])
